@@ -99,6 +99,26 @@ def modules():
                  F('keypoint_flip', [('keypoint', 'kp'), ('d', 'Z')] + RCS),
                  F('keypoint_transpose', [('keypoint', 'kp')]),
              ]),
+        dict(file='dicaugment/augmentations/geometric/functional.py', coq_module='Gen_geom_arrays',
+             requires=['Gen_keypoints_utils', 'Gen_bbox_utils', 'Gen_geom_functional'],
+             functions=[
+                 F('vflip', [('img', 'arr')]),
+                 F('hflip', [('img', 'arr')]),
+                 F('zflip', [('img', 'arr')]),
+                 F('random_flip', [('img', 'arr'), ('d', 'Z')]),
+                 F('transpose', [('img', 'arr')]),
+                 F('rot90', [('img', 'arr'), ('factor', 'Z'), ('axes', 'tuple:Z,Z')]),
+                 F('_pad', [('img', 'arr'), ('pad_width', 'padw'), ('border_mode', 'str'), ('value', 'Q')]),
+                 F('pad_with_params', [('img', 'arr'), ('h_pad_top', 'Z'), ('h_pad_bottom', 'Z'), ('w_pad_left', 'Z'),
+                                       ('w_pad_right', 'Z'), ('d_pad_front', 'Z'), ('d_pad_back', 'Z'),
+                                       ('border_mode', 'str'), ('value', 'Q')]),
+                 F('pad', [('img', 'arr'), ('min_height', 'Z'), ('min_width', 'Z'), ('min_depth', 'Z'),
+                           ('border_mode', 'str'), ('value', 'Q')]),
+             ]),
+        dict(file='dicaugment/augmentations/dropout/functional.py', coq_module='Gen_dropout_functional', requires=[],
+             functions=[
+                 F('cutout', [('img', 'arr'), ('holes', 'holes'), ('fill_value', 'Q')]),
+             ]),
         dict(file='dicaugment/augmentations/crops/functional.py', coq_module='Gen_crops_functional',
              requires=['Gen_keypoints_utils', 'Gen_bbox_utils', 'Gen_geom_functional'],
              functions=[
@@ -125,6 +145,13 @@ def modules():
                  F('bbox_crop',
                    [('bbox', 'box'), ('x_min', 'Z'), ('y_min', 'Z'), ('z_min', 'Z'), ('x_max', 'Z'),
                     ('y_max', 'Z'), ('z_max', 'Z')] + RCS),
+                 F('random_crop', [('img', 'arr'), ('crop_height', 'Z'), ('crop_width', 'Z'), ('crop_depth', 'Z'),
+                                   ('h_start', 'Q'), ('w_start', 'Q'), ('d_start', 'Q')]),
+                 F('center_crop', [('img', 'arr'), ('crop_height', 'Z'), ('crop_width', 'Z'), ('crop_depth', 'Z')]),
+                 F('crop', [('img', 'arr'), ('x_min', 'Z'), ('y_min', 'Z'), ('z_min', 'Z'), ('x_max', 'Z'),
+                            ('y_max', 'Z'), ('z_max', 'Z')]),
+                 F('clamping_crop', [('img', 'arr'), ('x_min', 'Z'), ('y_min', 'Z'), ('z_min', 'Z'), ('x_max', 'Z'),
+                                     ('y_max', 'Z'), ('z_max', 'Z')]),
                  F('crop_and_pad_bbox',
                    [('bbox', 'box'), ('crop_params', 'optc6'), ('pad_params', 'optc6')] + RCS +
                    [('result_rows', 'Z'), ('result_cols', 'Z'), ('result_slices', 'Z')]),
